@@ -31,7 +31,9 @@ POINTERS = [
 @functools.lru_cache(maxsize=64)
 def env(date: str):
     from gettsim import set_up_policy_environment
+    import paramsio
 
+    paramsio._cached_yaml()  # memoise yaml.load on the file text (pure), see paramsio
     with warnings.catch_warnings():
         warnings.simplefilter("ignore")
         return set_up_policy_environment(date)
